@@ -33,8 +33,13 @@ func drawInt(g simrt.Gen, profile int) int {
 	return v
 }
 
-func drawLimit(g simrt.Gen) rcmgr.BaseLimit {
-	profile := g.Weighted(3, 3, 2) // open, mixed, tight
+// drawLimit draws the limit table of one scope class. outer scopes (system, transient) are open more
+// often than inner ones, otherwise most histories would consist of refusals at the first edge.
+func drawLimit(g simrt.Gen, outer bool) rcmgr.BaseLimit {
+	profile := g.Weighted(4, 3, 2) // open, mixed, tight
+	if outer {
+		profile = g.Weighted(6, 3, 1)
+	}
 	return rcmgr.BaseLimit{
 		Streams:         drawInt(g, profile),
 		StreamsInbound:  drawInt(g, profile),
@@ -51,15 +56,15 @@ var capMenu = []int{8, 2, 1}
 
 func drawConfig(g simrt.Gen) *config {
 	c := newUniverse()
-	c.lim[sSystem] = drawLimit(g)
-	c.lim[sTransient] = drawLimit(g)
-	c.lim[sASystem] = drawLimit(g)
-	c.lim[sATransient] = drawLimit(g)
-	svcDef, svcPeerDef := drawLimit(g), drawLimit(g)
-	protoDef, protoPeerDef := drawLimit(g), drawLimit(g)
-	peerDef := drawLimit(g)
-	c.conn = drawLimit(g)
-	c.stream = drawLimit(g)
+	c.lim[sSystem] = drawLimit(g, true)
+	c.lim[sTransient] = drawLimit(g, true)
+	c.lim[sASystem] = drawLimit(g, false)
+	c.lim[sATransient] = drawLimit(g, false)
+	svcDef, svcPeerDef := drawLimit(g, false), drawLimit(g, false)
+	protoDef, protoPeerDef := drawLimit(g, false), drawLimit(g, false)
+	peerDef := drawLimit(g, false)
+	c.conn = drawLimit(g, true)
+	c.stream = drawLimit(g, true)
 
 	p := rcmgr.PartialLimitConfig{
 		System:               c.lim[sSystem].ToResourceLimits(),
@@ -91,31 +96,31 @@ func drawConfig(g simrt.Gen) *config {
 		c.lim[peerIdx(q)] = peerDef
 	}
 	if g.Chance(1, 3) {
-		l := drawLimit(g)
+		l := drawLimit(g, false)
 		c.lim[svcIdx(0)] = l
 		p.Service = map[string]rcmgr.ResourceLimits{c.svcs[0]: l.ToResourceLimits()}
 	}
 	if g.Chance(1, 4) {
-		l := drawLimit(g)
+		l := drawLimit(g, false)
 		for q := 0; q < nPeers; q++ {
 			c.lim[svcPeerIdx(0, q)] = l
 		}
 		p.ServicePeer = map[string]rcmgr.ResourceLimits{c.svcs[0]: l.ToResourceLimits()}
 	}
 	if g.Chance(1, 3) {
-		l := drawLimit(g)
+		l := drawLimit(g, false)
 		c.lim[protoIdx(0)] = l
 		p.Protocol = map[protocol.ID]rcmgr.ResourceLimits{c.protos[0]: l.ToResourceLimits()}
 	}
 	if g.Chance(1, 4) {
-		l := drawLimit(g)
+		l := drawLimit(g, false)
 		for q := 0; q < nPeers; q++ {
 			c.lim[protoPeerIdx(0, q)] = l
 		}
 		p.ProtocolPeer = map[protocol.ID]rcmgr.ResourceLimits{c.protos[0]: l.ToResourceLimits()}
 	}
 	if g.Chance(1, 3) {
-		l := drawLimit(g)
+		l := drawLimit(g, false)
 		c.lim[peerIdx(0)] = l
 		p.Peer = map[peer.ID]rcmgr.ResourceLimits{c.peers[0]: l.ToResourceLimits()}
 	}
